@@ -11,3 +11,24 @@ ASSUMPTIONS = ["theorems are about the Lean models of SequOOL; they are tied to 
                "object and cross-checked to 1e-9)",
                "score theorems hold for every linear order of scores and every formula record; IEEE rounding is not modelled"]
 TRUSTED = ["harness/algo_cases.py, harness/monitors.py, harness/common.py (instrumented partition subclasses, RNG patching)", "lean/PyXABModel/Drv (driver)"]
+
+# directed cases: small budgets whose schedule is exhausted well before the end of the run, rewards for which the
+# domain centre would win a naive comparison (constant / all-negative / ties)
+DIRECTED = [
+    ("SequOOL", {"params": {"n": 10}, "kind": "binary", "d": 1, "T": 40, "rmode": "const"}),
+    ("SequOOL", {"params": {"n": 25}, "kind": "binary", "d": 1, "T": 60, "rmode": "zero"}),
+    ("SequOOL", {"params": {"n": 25}, "kind": "kary", "K": 3, "d": 2, "T": 60, "rmode": "few"}),
+    ("SequOOL", {"params": {"n": 30}, "kind": "binary", "d": 1, "T": 60, "rmode": "negative"}),
+]
+_explore = explore
+
+
+def explore(tier, seed, n):
+    import algo_prop, framework as fw
+    res = _explore(tier, seed, n)
+    directed = algo_prop.run_cases([(960000 + j + 100 * seed, 0, a, f) for j, (a, f) in enumerate(DIRECTED)], parallel=False)
+    mism, n_ops = fw.compare(directed)
+    res["cases"] = directed + res["cases"]
+    res["mism"] = mism + res["mism"]
+    res["n_ops"] += n_ops
+    return res
